@@ -212,3 +212,33 @@ func VerifC01_DubboSlow() {
 	verif.Assert(diff == 0, "re-encoded frame is not the modified frame (magic/flag/status, id, length, new body)")
 	verif.Cover("end")
 }
+
+// VerifC02_DubboIDWidth: the id handed to the stream table by
+// GenerateRequestID is exactly the id read back from the wire after
+// SetRequestId/Encode/Decode, and counters less than 2^63 apart give distinct ids.
+func VerifC02_DubboIDWidth() {
+	c := verif.U64("c")
+	c0 := c
+	id := dubboProtocol{}.GenerateRequestID(&c)
+	verif.Assert(c == c0+1, "counter must advance by one")
+	f := zzFrame("f", 1)
+	ctx := zzCtx()
+	frame, err := dubboProtocol{}.Decode(ctx, buffer.NewIoBufferBytes(verif.WithStaleCap(f, 64)))
+	verif.Assume(frame != nil && err == nil)
+	xf := frame.(api.XFrame)
+	xf.SetRequestId(id)
+	out, err := dubboProtocol{}.Encode(ctx, frame)
+	verif.Assume(err == nil && out != nil)
+	frame2, err := dubboProtocol{}.Decode(zzCtx(), buffer.NewIoBufferBytes(verif.WithStaleCap(append([]byte{}, out.Bytes()...), 64)))
+	verif.Assert(frame2 != nil && err == nil, "frame with the generated id must decode")
+	if frame2 == nil {
+		return
+	}
+	verif.Assert(frame2.(api.XFrame).GetRequestId() == id, "id read from the wire differs from the id the stream table was given")
+	d := verif.U64("d")
+	verif.Assume(d != 0 && d>>63 == 0)
+	c2 := c0 + d
+	id2 := dubboProtocol{}.GenerateRequestID(&c2)
+	verif.Assert(id2 != id, "two live counters map to the same wire id")
+	verif.Cover("end")
+}
